@@ -630,7 +630,7 @@ func c04Scenario(w *vfWorld, r *vfkit.R, idx int) {
 
 func TestVfC04(t *testing.T) {
 	r := vfkit.New("C04")
-	defer r.Flush(true)
+	defer r.Finish()
 	e := vfBoot(vfConfig{})
 	vfInstallRecorder(e)
 	rng := r.Rand(1)
